@@ -26,6 +26,16 @@
 //!   (AdobeBlank) gets k − 1 and a covering set of flag combinations; a font whose cmap puts a format-12
 //!   subtable under a BMP-only encoding record (autohint_cmap.ttf) gets glyph-id requests only.
 //!
+//! * round-11 additions: the alias family (absent characters b + {1,2,16}·0x10000 / s & 0xFFFF that alias a
+//!   mapped character, alone / with the aliased character / with a glyph id / all together), glyph-shape
+//!   classes × the byte-rewriting flag sets, the hmtx tail family, and a derived font with an HVAR LSB map;
+//! * the judge of "what does a font map" is the harness' own from-spec cmap reader (`cmapref.rs`), for the
+//!   original and for every subset; skrifa's `Charmap` (the property's observer and what klippa's plan
+//!   uses) must agree with it on every code point any subtable names and on the ±1 / ±k·0x10000 alias
+//!   probes of the kept and requested characters; every other Unicode subtable of the subset is judged
+//!   too; a request's absent characters must not change the glyph count or the character map; the raw
+//!   hmtx record of every derived pair is compared independently of skrifa.
+//!
 //! The oracle never looks at klippa's plan: the old→new glyph relation is derived from the two fonts
 //! (cmap of requested characters, identity under RETAIN_GIDS, positional component ids of paired
 //! composites, closed transitively; glyphs requested by id only — and the components they reach — are
@@ -35,7 +45,9 @@
 //!
 //! Triage aids (not used by ./check): `C17_DEBUG=1 ./check C17 --replay f` prints cmap records, table
 //! sizes and per-character mappings of both subset levels; `C17_SCAN=<font file name>` lists failing
-//! single-glyph / single-character requests.
+//! single-glyph / single-character requests; `C17_LONG_HVAR=1|small|short` subsets a derived font whose
+//! HVAR has no index maps and (1) 32-bit deltas above the 16-bit range, (small) 32-bit words with small
+//! deltas, (short) ordinary 16-bit words — see PROPOSED_FIX_hvar_no_adv_map_and_long_words.diff.
 
 use klippa::{subset_font, Plan, SubsetFlags, DEFAULT_LAYOUT_FEATURES};
 use rayon::prelude::*;
@@ -54,6 +66,9 @@ use skrifa::{
 };
 use std::collections::{BTreeMap, BTreeSet, HashSet};
 use vcore::*;
+
+mod cmapref;
+use cmapref::{RefCmap, Variant};
 
 fn main() {
     main_for("C17", body)
@@ -395,6 +410,12 @@ struct FontInfo {
     /// to subset such a cmap and drops it; "requested characters stay mapped" is not judged on such a
     /// font (glyph-id requests are).
     nonconforming_cmap: bool,
+    /// the harness' own from-spec reading of the original's cmap (judge of "what does the original map")
+    refcmap: RefCmap,
+    /// load-time differential: places where skrifa's `Charmap` of the ORIGINAL disagrees with `refcmap`
+    charmap_diffs: Vec<String>,
+    /// absent characters that alias a mapped one modulo 0x10000 (see `alias_chars`)
+    aliases: Vec<u32>,
 }
 
 const HUGE_CMAP: usize = 100_000;
@@ -402,6 +423,9 @@ const HUGE_CMAP: usize = 100_000;
 impl FontInfo {
     fn font(&self) -> FontRef<'_> {
         FontRef::from_index(&self.bytes, self.index).unwrap()
+    }
+    fn bytes_for_raw(&self) -> &[u8] {
+        &self.bytes
     }
     fn valid_target(&self, cp: u32) -> Option<u32> {
         self.cmap.get(&cp).copied().filter(|g| *g < self.num_glyphs)
@@ -505,20 +529,6 @@ fn raw_cmap_ranges(font: &FontRef) -> Vec<(u32, u32)> {
     out
 }
 
-/// Every nominal mapping of a font: `Charmap::map()` evaluated on every code point any subtable names.
-fn all_mappings(font: &FontRef) -> Vec<(u32, u32)> {
-    let cm = font.charmap();
-    let mut out = vec![];
-    for (s, e) in raw_cmap_ranges(font) {
-        for c in s..=e {
-            if let Some(g) = cm.map(c) {
-                out.push((c, g.to_u32()));
-            }
-        }
-    }
-    out
-}
-
 /// Characters on the seams of ADJACENT format-12 groups (a group that starts right after the previous
 /// one ends): for the first `max` seams, the last code of the earlier and the first code of the later
 /// group.
@@ -544,6 +554,94 @@ fn cmap12_seams(font: &FontRef, max: usize) -> Vec<(u32, u32)> {
     out
 }
 
+/// Cap of the alias / neighbour probes: all mapped characters when there are at most this many, else the
+/// first and last PROBE_EDGE of them (in code point order).
+const PROBE_EDGE: usize = 128;
+
+/// The probe alphabet of the Charmap differential for a font whose from-spec reading is `r`:
+/// * every code point any format 4 / 12 subtable names (from the reader's ranges and from `extra`);
+/// * for mapped characters c (all if ≤ 2·PROBE_EDGE, else the first and last PROBE_EDGE): c − 1, c + 1,
+///   every alias c + k·0x10000 (k = 1..=16, ≤ U+10FFFF) of a BMP c, and the BMP alias c & 0xFFFF of a
+///   supplementary c;
+/// * a fixed set of boundary code points.
+fn probe_set(r: &RefCmap, extra: &[(u32, u32)], also: &[u32]) -> Vec<u32> {
+    let mut out: Vec<u32> = vec![];
+    for (s, e) in r.named_ranges().into_iter().chain(extra.iter().copied()) {
+        out.extend(s..=e.min(0x10FFFF));
+    }
+    let mapped = r.mappings();
+    let edge: Vec<u32> = if mapped.len() <= 2 * PROBE_EDGE {
+        mapped.iter().map(|p| p.0).collect()
+    } else {
+        mapped[..PROBE_EDGE].iter().chain(mapped[mapped.len() - PROBE_EDGE..].iter()).map(|p| p.0).collect()
+    };
+    for c in edge.into_iter().chain(also.iter().copied()) {
+        out.push(c.saturating_sub(1));
+        out.push(c + 1);
+        if c <= 0xFFFF {
+            for k in 1..=16u32 {
+                out.push(c + k * 0x10000);
+            }
+        } else {
+            out.push(c & 0xFFFF);
+        }
+        out.push(c);
+    }
+    out.extend([0u32, 0x20, 0x41, 0xFF, 0x100, 0xF020, 0xF041, 0xFFFE, 0xFFFF, 0x10000, 0x10041, 0x1FFFF, 0x10FFFF, 0x110000, 0x110041]);
+    out.sort();
+    out.dedup();
+    out
+}
+
+/// Places (at most `max`) where skrifa's `Charmap::map` disagrees with the from-spec reader.
+fn charmap_differential(font: &FontRef, r: &RefCmap, extra: &[(u32, u32)], max: usize) -> Vec<String> {
+    let cm = font.charmap();
+    let mut out = vec![];
+    for c in probe_set(r, extra, &[]) {
+        let a = cm.map(c).map(|g| g.to_u32());
+        let b = r.map(c);
+        if a != b {
+            out.push(format!("U+{c:04X}: Charmap::map says {a:?}, the from-spec reading of the cmap (selected subtable: record {:?}, format {}) says {b:?}", r.best, r.best_format()));
+            if out.len() >= max {
+                break;
+            }
+        }
+    }
+    out
+}
+
+/// Request characters the original does NOT map but whose value modulo 0x10000 is a mapped character (or,
+/// for a font that maps supplementary characters, the unmapped BMP value of one): for the first, the 'A'
+/// (U+0041) and the last mapped BMP character b: b + 0x10000, b + 0x20000, b + 0x100000; for the first
+/// mapped supplementary character s: s & 0xFFFF.
+fn alias_chars(fi: &FontInfo) -> Vec<u32> {
+    let sel: BTreeSet<u32> = fi.refcmap.selectors().into_iter().collect();
+    let valid: Vec<u32> = fi.cmap.iter().filter(|(_, g)| **g < fi.num_glyphs).map(|(c, _)| *c).collect();
+    let bmp: Vec<u32> = valid.iter().copied().filter(|c| *c <= 0xFFFF).collect();
+    let mut bases: Vec<u32> = vec![];
+    for b in [bmp.first().copied(), fi.valid_target(0x41).map(|_| 0x41), bmp.last().copied()].into_iter().flatten() {
+        if !bases.contains(&b) {
+            bases.push(b);
+        }
+    }
+    let mut out = vec![];
+    for b in bases {
+        for k in [1u32, 2, 16] {
+            let a = b + k * 0x10000;
+            if !fi.cmap.contains_key(&a) && !sel.contains(&a) && !out.contains(&a) {
+                out.push(a);
+            }
+        }
+    }
+    if let Some(s) = valid.iter().find(|c| **c > 0xFFFF) {
+        let a = *s & 0xFFFF;
+        if !fi.cmap.contains_key(&a) && !sel.contains(&a) && !out.contains(&a) {
+            out.push(a);
+        }
+    }
+    out
+}
+
 fn load_font(name: String, bytes: Vec<u8>, index: u32, tier: Tier) -> Option<FontInfo> {
     let font = FontRef::from_index(&bytes, index).ok()?;
     font.glyf().ok()?;
@@ -555,8 +653,31 @@ fn load_font(name: String, bytes: Vec<u8>, index: u32, tier: Tier) -> Option<Fon
         return None;
     }
     let num_long_metrics = font.hhea().ok()?.number_of_h_metrics() as u32;
-    // the request-character alphabet: map() over the raw subtable ranges, never mappings()
-    let cmap: BTreeMap<u32, u32> = all_mappings(&font).into_iter().collect();
+    // the request-character alphabet and the judge of "what the original maps": the harness' own
+    // from-spec cmap reader (never skrifa's Charmap, which klippa's plan uses too)
+    let refcmap = RefCmap::new(&bytes, index).unwrap_or_default();
+    let cmap: BTreeMap<u32, u32> = refcmap.mappings().into_iter().collect();
+    // differential on the original: skrifa's Charmap must agree with the reader on every code point any
+    // subtable names (read two ways) and on the alias / neighbour probes of `probe_set`
+    let mut charmap_diffs = charmap_differential(&font, &refcmap, &raw_cmap_ranges(&font), 4);
+    {
+        let mine: BTreeSet<(u32, u32, Option<u32>)> = refcmap
+            .variant_mappings()
+            .into_iter()
+            .map(|(c, s, v)| (c, s, match v { Variant::UseDefault => None, Variant::Glyph(g) => Some(g) }))
+            .collect();
+        let theirs: BTreeSet<(u32, u32, Option<u32>)> = font
+            .charmap()
+            .variant_mappings()
+            .map(|(c, sel, m)| (c, sel, match m {
+                skrifa::charmap::MapVariant::UseDefault => None,
+                skrifa::charmap::MapVariant::Variant(g) => Some(g.to_u32()),
+            }))
+            .collect();
+        if let Some(d) = mine.symmetric_difference(&theirs).next() {
+            charmap_diffs.push(format!("variation sequence U+{:04X} U+{:04X} -> {:?}: only one of Charmap::variant_mappings and the from-spec format 14 reading has it", d.0, d.1, d.2));
+        }
+    }
     let seams = cmap12_seams(&font, 8);
     let comps: Vec<Vec<u32>> = (0..num_glyphs)
         .map(|g| direct_components(&font, g).unwrap_or_default())
@@ -596,19 +717,10 @@ fn load_font(name: String, bytes: Vec<u8>, index: u32, tier: Tier) -> Option<Fon
             by_index.into_values().collect()
         },
         seams,
-        variants: font
-            .charmap()
+        variants: refcmap
             .variant_mappings()
-            .map(|(c, sel, m)| {
-                (
-                    c,
-                    sel,
-                    match m {
-                        skrifa::charmap::MapVariant::UseDefault => None,
-                        skrifa::charmap::MapVariant::Variant(g) => Some(g.to_u32()),
-                    },
-                )
-            })
+            .into_iter()
+            .map(|(c, sel, v)| (c, sel, match v { Variant::UseDefault => None, Variant::Glyph(g) => Some(g) }))
             .collect(),
         huge_cmap: false,
         nonconforming_cmap: font
@@ -621,8 +733,12 @@ fn load_font(name: String, bytes: Vec<u8>, index: u32, tier: Tier) -> Option<Fon
                 })
             })
             .unwrap_or(false),
+        refcmap,
+        charmap_diffs,
+        aliases: vec![],
     };
     fi.huge_cmap = fi.cmap.len() > HUGE_CMAP;
+    fi.aliases = alias_chars(&fi);
     fi.reach0 = (0..num_glyphs)
         .map(|g| {
             let mut s = BTreeSet::new();
@@ -810,6 +926,44 @@ fn subsets_up_to(n: usize, k: usize) -> Vec<Vec<usize>> {
     out
 }
 
+const SHAPE_CLASSES_MAX: usize = 32;
+
+/// Glyphs grouped by the shape of their glyf record, classes in order of first appearance:
+/// composite: the component count (capped at 4) and each of the first four components' structural flag
+/// bits (ARG_1_AND_2_ARE_WORDS, WE_HAVE_A_SCALE, MORE_COMPONENTS, X_AND_Y_SCALE, TWO_BY_TWO,
+/// WE_HAVE_INSTRUCTIONS, USE_MY_METRICS, OVERLAP_COMPOUND); simple: whether it has instructions, the
+/// REPEAT / OVERLAP_SIMPLE bits of its first flag byte, and whether it has no contours.
+/// (Placement only: the grouping chooses which glyphs are requested, never what is expected of them.)
+fn glyph_shape_classes(fi: &FontInfo) -> Vec<(Vec<u32>, Vec<u32>)> {
+    let font = fi.font();
+    let mut out: Vec<(Vec<u32>, Vec<u32>)> = vec![];
+    let (Ok(loca), Ok(glyf)) = (font.loca(None), font.glyf()) else {
+        return out;
+    };
+    for g in 0..fi.num_glyphs {
+        let key: Vec<u32> = match loca.get_glyf(GlyphId::new(g), &glyf) {
+            Ok(Some(Glyph::Composite(c))) => {
+                let flags: Vec<u32> = c.components().map(|k| (k.flags.bits() & 0x07EB) as u32).collect();
+                let mut k = vec![1, flags.len().min(4) as u32];
+                k.extend(flags.iter().take(4));
+                k
+            }
+            Ok(Some(Glyph::Simple(sg))) => vec![
+                0,
+                (sg.instruction_length() > 0) as u32,
+                sg.glyph_data().first().map_or(0xFFFF, |b| (*b & 0x48) as u32),
+                (sg.number_of_contours() == 0) as u32,
+            ],
+            _ => continue,
+        };
+        match out.iter_mut().find(|c| c.0 == key) {
+            Some(c) => c.1.push(g),
+            None => out.push((key, vec![g])),
+        }
+    }
+    out
+}
+
 /// A request together with the flag sets it is run under and whether the subset is subset again.
 struct Planned {
     req: Request,
@@ -921,6 +1075,109 @@ fn requests_for(fi: &FontInfo, tier: Tier) -> Vec<Planned> {
                     flags: vec![0, F_RETAIN_GIDS],
                     resubset: true,
                 });
+            }
+        }
+    }
+    // alias family: ABSENT characters whose value modulo 0x10000 is a mapped character (`alias_chars`) —
+    // each alone, each with the character it aliases, each with one glyph id, and all together; the
+    // subset must be what the request without them gives (see `check_case`)
+    if use_chars && !fi.aliases.is_empty() {
+        let mut reqs: Vec<Request> = vec![];
+        for a in &fi.aliases {
+            reqs.push(Request { gids: vec![], unicodes: vec![*a] });
+            let b = *a & 0xFFFF;
+            if fi.valid_target(b).is_some() {
+                reqs.push(Request { gids: vec![], unicodes: vec![b, *a] });
+            }
+            if !fi.huge_cmap {
+                reqs.push(Request { gids: vec![*fi.bgl.get(1).unwrap_or(&0)], unicodes: vec![*a] });
+            }
+        }
+        reqs.push(Request { gids: vec![], unicodes: fi.aliases.clone() });
+        for mut r in reqs {
+            r.unicodes.sort();
+            if seen.insert(r.clone()) {
+                out.push(Planned {
+                    req: r,
+                    flags: vec![0, F_RETAIN_GIDS, F_NO_HINTING | F_NOTDEF_OUTLINE],
+                    resubset: true,
+                });
+            }
+        }
+    }
+    // glyph-shape classes × the flags that rewrite glyph bytes: the glyf writer parses composite records
+    // by their flag words (argument width, the three transform forms, instructions, MORE_COMPONENTS) and
+    // patches simple glyphs at positions that depend on the instruction length; the singles layer runs
+    // every glyph under the default flags only, so one representative (the first glyph, and the first
+    // mapped glyph) of every class is requested under the byte-rewriting flag sets, by id and by character.
+    {
+        let classes = glyph_shape_classes(fi);
+        let flag_sets = [
+            F_NO_HINTING,
+            F_SET_OVERLAPS,
+            F_NO_HINTING | F_SET_OVERLAPS | F_NOTDEF_OUTLINE,
+            F_NO_HINTING | F_RETAIN_GIDS,
+            F_SET_OVERLAPS | F_RETAIN_GIDS,
+        ];
+        for (_, members) in classes.iter().take(SHAPE_CLASSES_MAX) {
+            let mut reps: Vec<u32> = vec![members[0]];
+            if let Some(m) = members.iter().find(|g| fi.cmap.values().any(|t| t == *g)) {
+                if !reps.contains(m) {
+                    reps.push(*m);
+                }
+            }
+            for g in reps {
+                let mut reqs = vec![Request { gids: vec![g], unicodes: vec![] }];
+                if use_chars && !fi.huge_cmap {
+                    if let Some((c, _)) = fi.cmap.iter().find(|(_, t)| **t == g) {
+                        reqs.push(Request { gids: vec![], unicodes: vec![*c] });
+                    }
+                }
+                for r in reqs {
+                    // (not entered into `seen`: the singles layer runs the same request under other flags)
+                    out.push(Planned { req: r, flags: flag_sets.to_vec(), resubset: false });
+                }
+            }
+        }
+    }
+    // hmtx tail family: the long-metric count of the subset is found by walking back from the last new
+    // glyph while the advance equals the last one's (gaps of a RETAIN_GIDS subset count as advance 0).
+    // Triples x < y < z (first in glyph id order among the first/last 96 glyphs) for each advance pattern
+    // {a a a, a a b, a b b, a b a, a b c} and, for RETAIN_GIDS, a pair whose higher glyph has advance 0.
+    {
+        let adv: Vec<Option<u16>> = (0..fi.num_glyphs).map(|g| cmapref::raw_hmtx(&fi.bytes_for_raw(), fi.index, g).map(|m| m.0)).collect();
+        let cand: Vec<u32> = (1..fi.num_glyphs).filter(|g| *g < 97 || *g + 96 >= fi.num_glyphs).collect();
+        let mut found: BTreeMap<&'static str, Vec<u32>> = BTreeMap::new();
+        'outer: for (i, x) in cand.iter().enumerate() {
+            for (j, y) in cand.iter().enumerate().skip(i + 1) {
+                for z in cand.iter().skip(j + 1) {
+                    let (a, b, c) = (adv[*x as usize], adv[*y as usize], adv[*z as usize]);
+                    let pat = match (a == b, b == c, a == c) {
+                        (true, true, _) => "aaa",
+                        (true, false, _) => "aab",
+                        (false, true, _) => "abb",
+                        (false, false, true) => "aba",
+                        (false, false, false) => "abc",
+                    };
+                    found.entry(pat).or_insert_with(|| vec![*x, *y, *z]);
+                    if found.len() == 5 {
+                        break 'outer;
+                    }
+                }
+                if i > 24 {
+                    break;
+                }
+            }
+        }
+        if let Some(z) = cand.iter().rev().find(|g| adv[**g as usize] == Some(0)) {
+            if let Some(x) = cand.iter().find(|g| adv[**g as usize].map_or(false, |a| a != 0) && **g < *z) {
+                found.entry("a0").or_insert_with(|| vec![*x, *z]);
+            }
+        }
+        for (_, gids) in found {
+            let r = Request { gids, unicodes: vec![] };
+            if seen.insert(r.clone()) {
+                out.push(Planned { req: r, flags: vec![0, F_RETAIN_GIDS, F_NOTDEF_OUTLINE], resubset: true });
             }
         }
     }
@@ -1343,15 +1600,18 @@ fn verify(fi: &FontInfo, req: &Request, flags: u16, out: &[u8]) -> Result<Outcom
     // Every derived pair remembers how it was derived (its provenance); the provenance is part of the
     // violation class so that a cmap defect, a component-rewrite defect and a per-glyph data defect get
     // different identities.
+    // The judge of what the subset maps is the harness' own from-spec reader of the subset's bytes; skrifa's
+    // Charmap (the property's observer, and what klippa's plan uses) is compared with it below.
+    let sub_ref = RefCmap::new(out, 0).unwrap_or_default();
     let sub_cm = sub.charmap();
     let mut pairs: BTreeMap<(u32, u32), &'static str> = BTreeMap::new();
     let mut char_of: BTreeMap<(u32, u32), u32> = BTreeMap::new();
     for c in &req_chars {
         if let Some(g) = fi.valid_target(*c) {
-            match sub_cm.map(*c) {
+            match sub_ref.map(*c) {
                 Some(n) => {
-                    pairs.entry((g, n.to_u32())).or_insert("requested character's glyph");
-                    char_of.entry((g, n.to_u32())).or_insert(*c);
+                    pairs.entry((g, n)).or_insert("requested character's glyph");
+                    char_of.entry((g, n)).or_insert(*c);
                 }
                 None => viol!("requested character not mapped", "U+{c:04X} (original glyph {g}) has no mapping in the subset"),
             }
@@ -1365,13 +1625,20 @@ fn verify(fi: &FontInfo, req: &Request, flags: u16, out: &[u8]) -> Result<Outcom
         if !(req_chars.contains(c) && req_chars.contains(sel)) {
             continue;
         }
-        let got = sub_cm.map_variant(*c, *sel);
+        let got = sub_ref.map_variant(*c, *sel);
+        let theirs = sub_cm.map_variant(*c, *sel).map(|m| match m {
+            skrifa::charmap::MapVariant::UseDefault => Variant::UseDefault,
+            skrifa::charmap::MapVariant::Variant(g) => Variant::Glyph(g.to_u32()),
+        });
+        if theirs != got {
+            viol!("Charmap::map_variant disagrees with the from-spec reading of the subset's cmap", "U+{c:04X} U+{sel:04X}: Charmap {theirs:?}, from-spec {got:?}");
+        }
         variants_checked += 1;
         match (target, got) {
-            (None, Some(skrifa::charmap::MapVariant::UseDefault)) => {}
-            (Some(g), Some(skrifa::charmap::MapVariant::Variant(n))) if *g < fi.num_glyphs => {
-                pairs.entry((*g, n.to_u32())).or_insert("requested variation sequence's glyph");
-                char_of.entry((*g, n.to_u32())).or_insert(*c);
+            (None, Some(Variant::UseDefault)) => {}
+            (Some(g), Some(Variant::Glyph(n))) if *g < fi.num_glyphs => {
+                pairs.entry((*g, n)).or_insert("requested variation sequence's glyph");
+                char_of.entry((*g, n)).or_insert(*c);
             }
             (Some(g), _) if *g >= fi.num_glyphs => {}
             (t, g) => viol!(
@@ -1380,12 +1647,105 @@ fn verify(fi: &FontInfo, req: &Request, flags: u16, out: &[u8]) -> Result<Outcom
             ),
         }
     }
-    for (c, n) in all_mappings(&sub) {
-        let og = fi.cmap.get(&c).copied();
-        let wanted = req_chars.contains(&c) || og.map_or(false, |g| req_gids.contains(&g));
-        if !wanted {
-            viol!("unrequested character mapped", "U+{c:04X} → new glyph {n} although neither it nor its original glyph {og:?} was requested");
+    // "no character is mapped unless it or its glyph was requested": EVERY character the subset maps
+    // (all code points its selected subtable names, read from the raw bytes)
+    let wanted_char = |c: u32| req_chars.contains(&c) || fi.cmap.get(&c).map_or(false, |g| req_gids.contains(g));
+    let sub_mappings = sub_ref.mappings();
+    for (c, n) in &sub_mappings {
+        if !wanted_char(*c) {
+            viol!("unrequested character mapped", "U+{c:04X} → new glyph {n} although neither it nor its original glyph {:?} was requested", fi.cmap.get(c));
             break;
+        }
+    }
+    // the same for variation sequences: the selector must have been requested, and the base character, its
+    // nominal glyph or the sequence's own glyph too
+    for (c, sel, v) in sub_ref.variant_mappings() {
+        let orig_variant = fi.variants.iter().find(|x| x.0 == c && x.1 == sel).and_then(|x| x.2);
+        let by_gid = orig_variant.map_or(false, |g| req_gids.contains(&g));
+        if !(req_chars.contains(&sel) && (wanted_char(c) || by_gid)) {
+            viol!("unrequested variation sequence mapped", "U+{c:04X} U+{sel:04X} → {v:?} in the subset");
+            break;
+        }
+    }
+    // The other Unicode subtables of the subset (a consumer may select (3,1) where skrifa selects (3,10)):
+    // a character such a subtable maps must have been wanted and — where every subtable of the original
+    // that maps it agrees on its glyph — must map to the same new glyph as in the selected subtable; a
+    // requested character that the original's record of the same platform/encoding maps (to the glyph the
+    // original's selected subtable gives) must be mapped by the subset's record of that platform/encoding.
+    let orig_agree = |c: u32| -> bool {
+        let mut seen: Option<u32> = None;
+        for r in &fi.refcmap.records {
+            if !matches!((r.platform, r.encoding), (0, 3) | (0, 4) | (3, 1) | (3, 10)) {
+                continue;
+            }
+            if let Some(g) = r.sub.as_ref().and_then(|s| s.map(c)) {
+                if seen.map_or(false, |x| x != g) {
+                    return false;
+                }
+                seen = Some(g);
+            }
+        }
+        true
+    };
+    let mut other_subtable_chars = 0usize;
+    for (i, r) in sub_ref.records.iter().enumerate() {
+        let Some(st) = r.sub.as_ref() else { continue };
+        if Some(i) == sub_ref.best || !matches!((r.platform, r.encoding), (0, 3) | (0, 4) | (3, 1) | (3, 10)) {
+            continue;
+        }
+        // the same bytes as the selected subtable: nothing new to judge
+        if sub_ref.best.map_or(false, |b| sub_ref.records[b].offset == r.offset) {
+            continue;
+        }
+        let label = format!("({},{}) format {}", r.platform, r.encoding, r.format);
+        let mut bad_unwanted = None;
+        let mut bad_glyph = None;
+        for (c, n) in st.mappings() {
+            other_subtable_chars += 1;
+            if !wanted_char(c) {
+                bad_unwanted.get_or_insert((c, n));
+            } else if orig_agree(c) {
+                if let Some(bn) = sub_ref.map(c) {
+                    if bn != n {
+                        bad_glyph.get_or_insert((c, n, bn));
+                    }
+                }
+            }
+        }
+        if let Some((c, n)) = bad_unwanted {
+            viol!("unrequested character mapped by a non-selected cmap subtable", "{label}: U+{c:04X} → new glyph {n}");
+        }
+        if let Some((c, n, bn)) = bad_glyph {
+            viol!("cmap subtables of the subset disagree on a kept character", "{label}: U+{c:04X} → {n}, selected subtable → {bn}");
+        }
+        if let Some(or) = fi.refcmap.records.iter().find(|o| o.platform == r.platform && o.encoding == r.encoding).and_then(|o| o.sub.as_ref()) {
+            for c in &req_chars {
+                if let (Some(g), Some(og)) = (fi.valid_target(*c), or.map(*c)) {
+                    if g == og && st.map(*c).is_none() {
+                        viol!("requested character not mapped by a retained cmap subtable", "{label}: U+{c:04X} (original glyph {g})");
+                        break;
+                    }
+                }
+            }
+        }
+    }
+    let _ = other_subtable_chars;
+    // differential: skrifa's Charmap of the SUBSET against the from-spec reader, on every code point any
+    // subtable of the subset names, on the neighbours and the ± k·0x10000 aliases of kept characters and
+    // of the requested characters, and on a fixed boundary set (see `probe_set`)
+    {
+        let also: Vec<u32> = req_chars.iter().copied().collect();
+        for c in probe_set(&sub_ref, &raw_cmap_ranges(&sub), &also) {
+            let a = sub_cm.map(c).map(|g| g.to_u32());
+            let b = sub_ref.map(c);
+            if a != b {
+                viol!(
+                    "Charmap::map disagrees with the from-spec reading of the subset's cmap",
+                    "U+{c:04X}: Charmap::map says {a:?}, the from-spec reading (selected subtable format {}) says {b:?}; requested: {}, original maps it: {:?}",
+                    sub_ref.best_format(), wanted_char(c), fi.cmap.get(&c)
+                );
+                break;
+            }
         }
     }
 
@@ -1513,6 +1873,23 @@ fn verify(fi: &FontInfo, req: &Request, flags: u16, out: &[u8]) -> Result<Outcom
         }
     }
 
+    // ---- characters kept because their glyph was requested by id ----------------------------
+    // such a character may be mapped; when it is, it must map to an image of its original glyph (judged
+    // only when that glyph has an image at all — otherwise the missing image is already reported)
+    for (c, n) in &sub_mappings {
+        if req_chars.contains(c) {
+            continue;
+        }
+        let Some(og) = fi.cmap.get(c).copied().filter(|g| *g < fi.num_glyphs && req_gids.contains(g)) else {
+            continue;
+        };
+        let has_image = pairs.keys().any(|p| p.0 == og);
+        if has_image && !pairs.contains_key(&(og, *n)) && (*n >= sub_n || !equal(og, obs_of(*n, &mut sub_obs))) {
+            viol!("character kept for a glyph requested by id maps to another glyph", "U+{c:04X}: original glyph {og}, subset glyph {n} has other observations");
+            break;
+        }
+    }
+
     // ---- observations of every derived pair -------------------------------------------------
     let mut images: BTreeMap<u32, u32> = BTreeMap::new();
     let mut compared_outlines = 0;
@@ -1521,6 +1898,8 @@ fn verify(fi: &FontInfo, req: &Request, flags: u16, out: &[u8]) -> Result<Outcom
     let mut skipped_ref_err = 0;
     let mut h = Fnv::new();
     h.u64(sub_n as u64);
+    let default_loc: Vec<F2Dot14> = vec![F2Dot14::ZERO; fi.axes];
+    let raw_gm = sub.glyph_metrics(Size::unscaled(), LocationRef::new(&default_loc));
     for ((o, n), prov) in &pairs {
         let (o, n) = (*o, *n);
         let via = match char_of.get(&(o, n)) {
@@ -1543,6 +1922,22 @@ fn verify(fi: &FontInfo, req: &Request, flags: u16, out: &[u8]) -> Result<Outcom
         }
         let so = obs_of(n, &mut sub_obs);
         h.u64(so.metrics);
+        // independent of skrifa: the raw hmtx record (advance, side bearing) read from the bytes of both
+        // fonts by the harness, and skrifa's default-location unscaled metrics of the subset against it
+        {
+            let ro = cmapref::raw_hmtx(&fi.bytes, fi.index, o);
+            let rn = cmapref::raw_hmtx(out, 0, n);
+            if ro.is_some() && ro != rn {
+                viol!(format!("{prov}: raw hmtx record differs"), "original glyph {o}{via} (advance, lsb) = {ro:?}, subset glyph {n} = {rn:?}");
+            }
+            if let Some((a, l)) = rn {
+                let g = GlyphId::new(n);
+                let (sa, sl) = (raw_gm.advance_width(g), raw_gm.left_side_bearing(g));
+                if sa != Some(a as f32) || sl != Some(l as f32) {
+                    viol!("glyph_metrics disagrees with the raw hmtx record of the subset", "subset glyph {n}: raw (advance, lsb) = ({a}, {l}), glyph_metrics at the default location, unscaled: ({sa:?}, {sl:?})");
+                }
+            }
+        }
         if oo.metrics != so.metrics {
             // an advance difference gets its own class; the older class name is kept for the case in
             // which only the side bearing differs (known findings are matched on it)
@@ -1610,6 +2005,7 @@ struct Local {
     resubsets: u64,
     errs: u64,
     variants: u64,
+    absent_checks: u64,
     font_ns: BTreeMap<usize, u64>,
 }
 
@@ -1624,7 +2020,7 @@ fn report(run: &Run, fi: &FontInfo, req: &Request, flags: u16, stage: &str, v: &
     // no variation region survives) and carries the corpus font's label; every other failure of the
     // derived font keeps the derived label.
     if v.hvar_dropped {
-        if let Some(base) = short.strip_prefix("derived:").and_then(|s| s.strip_suffix("+permuted-hvar")) {
+        if let Some(base) = short.strip_prefix("derived:").and_then(|s| s.strip_suffix("+permuted-hvar").or(s.strip_suffix("+lsb-map"))) {
             short = base;
         }
     }
@@ -1660,6 +2056,36 @@ fn check_case(run: &Run, fi: &FontInfo, req: &Request, flags: u16, resubset: boo
         }
         Ok(Ok(o)) => o,
     };
+    // ---- absent characters request nothing ------------------------------------------------------
+    // A requested character that the original does not map (and that is not one of its variation
+    // selectors) names no glyph: the subset must have the glyph count and the character map of the same
+    // request without such characters (two routes into klippa that must agree; the glyph count is the
+    // observer-independent symptom of a plan that resolved an absent character to some glyph).
+    {
+        let sel: BTreeSet<u32> = fi.refcmap.selectors().into_iter().collect();
+        let (absent, rest): (Vec<u32>, Vec<u32>) = req.unicodes.iter().copied().partition(|c| !fi.cmap.contains_key(c) && !sel.contains(c));
+        // (the resolution of characters does not depend on the flags: three flag sets are compared)
+        if !absent.is_empty() && [0, F_RETAIN_GIDS, F_NO_HINTING | F_NOTDEF_OUTLINE].contains(&flags) {
+            l.subset_calls += 1;
+            l.absent_checks += 1;
+            if let Ok(Ok(base)) = run_subset(&orig, &req.gids, &rest, flags) {
+                let count = |b: &[u8]| FontRef::new(b).ok().and_then(|f| f.maxp().ok().map(|m| m.num_glyphs()));
+                let maps = |b: &[u8]| RefCmap::new(b, 0).map(|r| r.mappings()).unwrap_or_default();
+                if count(&out) != count(&base) {
+                    report(run, fi, req, flags, "", &Viol { class: "requesting an unmapped character changes the glyph count".into(), what: format!("absent characters {absent:04X?}: {:?} glyphs with them, {:?} without", count(&out), count(&base)), hvar_dropped: false });
+                    l.errs += 1;
+                } else if maps(&out) != maps(&base) {
+                    report(run, fi, req, flags, "", &Viol { class: "requesting an unmapped character changes the character map".into(), what: format!("absent characters {absent:04X?}"), hvar_dropped: false });
+                    l.errs += 1;
+                }
+                if out != base {
+                    let mut h = Fnv::new();
+                    h.str("absent-character-request-changes-bytes");
+                    l.all.insert(h.finish());
+                }
+            }
+        }
+    }
     let o1 = match guard(|| verify(fi, req, flags, &out)) {
         Err(p) => {
             report(run, fi, req, flags, "", &Viol { class: format!("reading the subset panics {} @{}", p.kind(), p.site()), what: p.message.clone(), hvar_dropped: false });
@@ -1803,6 +2229,16 @@ fn debug_dump(fi: &FontInfo, req: &Request, flags: u16) {
     }
 }
 
+/// Report the load-time disagreements between skrifa's Charmap of an original and the from-spec reader.
+fn report_charmap_diffs(run: &Run, fi: &FontInfo) {
+    if let Some(first) = fi.charmap_diffs.first() {
+        let short = fi.name.rsplit('/').next().unwrap_or(&fi.name);
+        let id = format!("Charmap disagrees with the from-spec reading of the original's cmap [{short}]");
+        IDENTITIES.lock().unwrap().get_or_insert_with(BTreeMap::new).entry(id.clone()).and_modify(|n| *n += 1).or_insert(1u64);
+        run.violation(&id, &format!("{}: {first} ({} shown)", fi.name, fi.charmap_diffs.len()), json!({"font": fi.name, "kind": "charmap-differential", "differences": fi.charmap_diffs}));
+    }
+}
+
 fn load_corpus(tier: Tier) -> Vec<FontInfo> {
     let files = corpus_fonts();
     let mut jobs: Vec<(String, Vec<u8>, u32)> = vec![];
@@ -1848,9 +2284,118 @@ fn load_corpus(tier: Tier) -> Vec<FontInfo> {
             }
         }
     }
+    // No glyf corpus font has an HVAR left-side-bearing map, so klippa's handling of the second and third
+    // index maps (plans built with bypass_empty, shared outer/inner maps, separate serialisation) is never
+    // exercised and skrifa's side bearing never takes a delta from HVAR. Derived fonts gain an LSB map whose
+    // entry for glyph g is the advance map's entry for glyph g + 1 (cyclically).
+    for base_name in tier.pick(vec!["vazirmatn_var_trimmed.ttf"], vec!["vazirmatn_var_trimmed.ttf", "Comfortaa-Regular-new.ttf"]) {
+        if let Some((_, base, _)) = jobs.iter().find(|j| j.0.ends_with(base_name)) {
+            if let Some(b) = with_lsb_map(base) {
+                jobs.push((format!("derived:{base_name}+lsb-map"), b, 0));
+            }
+        }
+    }
     jobs.into_par_iter()
         .filter_map(|(n, b, i)| load_font(n, b, i, tier))
         .collect()
+}
+
+/// Copy of a one-axis variable font whose HVAR is rebuilt with one long-word ItemVariationData (32-bit
+/// deltas, no index maps): glyph g gets the advance delta 40000 + g (even g) or 100 + g (odd g) at +1.
+fn with_long_hvar(bytes: &[u8]) -> Option<Vec<u8>> {
+    use write_fonts::tables::hvar::Hvar;
+    use write_fonts::tables::variations::{ItemVariationData, ItemVariationStore, RegionAxisCoordinates, VariationRegion, VariationRegionList};
+    let font = FontRef::new(bytes).ok()?;
+    if font.axes().len() != 1 {
+        return None;
+    }
+    let n = font.maxp().ok()?.num_glyphs();
+    let region = VariationRegion::new(vec![RegionAxisCoordinates::new(F2Dot14::ZERO, F2Dot14::from_f32(1.0), F2Dot14::from_f32(1.0))]);
+    let mut deltas = vec![];
+    // C17_LONG_HVAR=short: the same store with ordinary 16-bit words (control)
+    let short = std::env::var("C17_LONG_HVAR").map_or(false, |v| v == "short");
+    for g in 0..n as i32 {
+        let big = std::env::var("C17_LONG_HVAR").map_or(true, |v| v != "small" && v != "short");
+        let d: i32 = if g % 2 == 0 && big { 40000 + g } else { 100 + g };
+        if short {
+            deltas.extend_from_slice(&(d as i16).to_be_bytes());
+        } else {
+            deltas.extend_from_slice(&d.to_be_bytes());
+        }
+    }
+    let data = ItemVariationData::new(n, if short { 1 } else { 0x8000 | 1 }, vec![0], deltas);
+    let store = ItemVariationStore::new(VariationRegionList::new(1, vec![region]), vec![Some(data)]);
+    let hvar = Hvar::new(store, None, None, None);
+    let mut fb = write_fonts::FontBuilder::new();
+    fb.add_table(&hvar).ok()?;
+    fb.copy_missing_tables(font);
+    Some(fb.build())
+}
+
+/// Copy of a variable font whose HVAR gains a left-side-bearing DeltaSetIndexMap: the advance map's
+/// entries rotated by one glyph, appended to the table. None when the font has no advance map, already
+/// has an LSB map, or the gate fails (advances unchanged everywhere; the LSB map is read back and changes
+/// the side bearing of at least one glyph at a non-default location).
+fn with_lsb_map(bytes: &[u8]) -> Option<Vec<u8>> {
+    let font = FontRef::new(bytes).ok()?;
+    let tag = Tag::new(b"HVAR");
+    let mut hvar = font.data_for_tag(tag)?.as_bytes().to_vec();
+    let be16 = |b: &[u8], at: usize| -> Option<usize> { Some(u16::from_be_bytes([*b.get(at)?, *b.get(at + 1)?]) as usize) };
+    let be32 = |b: &[u8], at: usize| -> Option<usize> {
+        Some(u32::from_be_bytes([*b.get(at)?, *b.get(at + 1)?, *b.get(at + 2)?, *b.get(at + 3)?]) as usize)
+    };
+    let adv = be32(&hvar, 8)?;
+    if adv == 0 || be32(&hvar, 12)? != 0 {
+        return None;
+    }
+    let format = *hvar.get(adv)?;
+    let entry_format = *hvar.get(adv + 1)?;
+    let entry_size = (((entry_format & 0x30) >> 4) + 1) as usize;
+    let (count, data, head) = if format == 0 { (be16(&hvar, adv + 2)?, adv + 4, 4) } else { (be32(&hvar, adv + 2)?, adv + 6, 6) };
+    if count < 2 {
+        return None;
+    }
+    while hvar.len() % 4 != 0 {
+        hvar.push(0);
+    }
+    let at = hvar.len();
+    let header = hvar.get(adv..adv + head)?.to_vec();
+    hvar.extend(header);
+    for g in 0..count {
+        let src = data + ((g + 1) % count) * entry_size;
+        let e = hvar.get(src..src + entry_size)?.to_vec();
+        hvar.extend(e);
+    }
+    hvar[12..16].copy_from_slice(&(at as u32).to_be_bytes());
+    let mut fb = write_fonts::FontBuilder::new();
+    fb.add_raw(tag, hvar);
+    fb.copy_missing_tables(font.clone());
+    let out = fb.build();
+    {
+        let derived = FontRef::new(&out).ok()?;
+        derived.hvar().ok()?.lsb_mapping()?.ok()?;
+        let axes = font.axes().len();
+        let glyphs = font.maxp().ok()?.num_glyphs() as u32;
+        let mut lsb_changed = false;
+        for v in [-1.0f32, 0.0, 1.0] {
+            let loc = vec![F2Dot14::from_f32(v); axes];
+            let a = font.glyph_metrics(Size::unscaled(), LocationRef::new(&loc));
+            let b = derived.glyph_metrics(Size::unscaled(), LocationRef::new(&loc));
+            for g in 0..glyphs {
+                let g = GlyphId::new(g);
+                if a.advance_width(g).map(f32::to_bits) != b.advance_width(g).map(f32::to_bits) {
+                    return None;
+                }
+                if a.left_side_bearing(g).map(f32::to_bits) != b.left_side_bearing(g).map(f32::to_bits) {
+                    lsb_changed = true;
+                }
+            }
+        }
+        if !lsb_changed {
+            return None;
+        }
+    }
+    Some(out)
 }
 
 /// Copy of a variable font whose HVAR ItemVariationData subtables are permuted (offset array permuted,
@@ -2063,7 +2608,7 @@ fn with_cmap14(bytes: &[u8]) -> Option<Vec<u8>> {
 
 fn body(run: &Run, replay: Option<&Value>) {
     run.rule("a case is (corpus glyf font, request = set of glyph ids and characters, flag set); the subset and the subset-of-the-subset are each verified against the original; the outcome digest is (font, subset glyph count, derived old→new pairs, their observation digests); a case is non-trivial when at least one kept glyph with a non-empty outline was compared with the original over the size × location grid");
-    run.assume("skrifa (charmap, unhinted outline loader, glyph_metrics) is the observer of both the original and the subset; equal observations mean bit-equal f32 pen streams, advances and side bearings");
+    run.assume("skrifa (unhinted outline loader, glyph_metrics) is the observer of both the original and the subset; equal observations mean bit-equal f32 pen streams, advances and side bearings; character maps are judged by the harness' own from-spec cmap reader (formats 4, 12, 14; skrifa's documented subtable selection order), with which skrifa's Charmap must agree on both fonts; the raw hmtx record is read by the harness as well");
     run.assume("request defaults (dropped tables, name ids/languages, layout scripts/features) are those of the klippa command line tool");
     run.assume("characters whose original cmap target is ≥ numGlyphs are outside the property; the .notdef outline (and composites reaching glyph 0) is not compared unless NOTDEF_OUTLINE is set — dropping it is the documented default; advance and side bearing are still compared");
     let tier = if replay.is_some() { Tier::Thorough } else { run.tier };
@@ -2084,6 +2629,10 @@ fn body(run: &Run, replay: Option<&Value>) {
             gids: arr("gids"),
             unicodes: arr("unicodes"),
         };
+        if case["kind"].as_str() == Some("charmap-differential") {
+            report_charmap_diffs(run, fi);
+            return;
+        }
         let flags = case["flags"].as_u64().unwrap_or(0) as u16;
         let mut l = Local::default();
         check_case(run, fi, &req, flags, true, &mut l);
@@ -2110,6 +2659,56 @@ fn body(run: &Run, replay: Option<&Value>) {
                     Ok(Ok(_)) => {}
                     Ok(Err(e)) => println!("scan {} U+{c:04X} (gid {g}): Err({e})", fi.name),
                     Err(p) => println!("scan {} U+{c:04X}: panic {}", fi.name, p.message),
+                }
+            }
+        }
+        std::process::exit(0);
+    }
+    // the load-time differential on every ORIGINAL: skrifa's Charmap against the from-spec cmap reader
+    let mut probes_orig = 0u64;
+    for fi in &fonts {
+        report_charmap_diffs(run, fi);
+        probes_orig += probe_set(&fi.refcmap, &[], &[]).len() as u64;
+    }
+    run.count("charmap_differential_probes_on_originals", probes_orig);
+    run.count("alias_request_characters", fonts.iter().map(|f| f.aliases.len() as u64).sum());
+    run.bound("cmap_probe_alphabet", json!(format!("per font (original and every subset): every code point named by any format 4/12 subtable; for mapped characters (all if ≤ {}, else the first and last {PROBE_EDGE}) and for requested characters: c±1, c + k·0x10000 (k = 1..=16) or c & 0xFFFF; 15 fixed boundary code points", 2 * PROBE_EDGE)));
+    run.bound("alias_requests", json!("absent characters b + {1,2,16}·0x10000 for b in {first mapped BMP character, U+0041, last mapped BMP character} and s & 0xFFFF for the first mapped supplementary character s: alone, with the aliased character, with one glyph id, all together × {DEFAULT, RETAIN_GIDS, NO_HINTING|NOTDEF_OUTLINE}"));
+    // triage aid (never used by ./check): C17_LONG_HVAR=1 builds a copy of a one-axis corpus font whose HVAR
+    // store uses 32-bit ("long word") deltas above the 16-bit range and reports what subsetting it gives
+    if std::env::var("C17_LONG_HVAR").is_ok() {
+        for fi in fonts.iter().filter(|f| f.name.ends_with("/hvar_with_truncated_adv_index_map.ttf")) {
+            match with_long_hvar(&fi.bytes) {
+                None => println!("long-hvar: derived font could not be built"),
+                Some(b) => {
+                    let f = FontRef::new(&b).unwrap();
+                    let loc = vec![F2Dot14::from_f32(1.0); fi.axes];
+                    let gm = f.glyph_metrics(Size::unscaled(), LocationRef::new(&loc));
+                    println!("long-hvar: original advances at +1: {:?}", (0..4).map(|g| gm.advance_width(GlyphId::new(g))).collect::<Vec<_>>());
+                    if let Some(dfi) = load_font("derived:long-hvar".into(), b.clone(), 0, tier) {
+                        for (gids, flags) in [(vec![1u32, 2], 0u16), (vec![2], 0), ((0..fi.num_glyphs).collect(), F_RETAIN_GIDS)] {
+                            let req = Request { gids, unicodes: vec![] };
+                            if let Ok(Ok(o)) = run_subset(&dfi.font(), &req.gids, &[], flags) {
+                                let sf = FontRef::new(&o).unwrap();
+                                println!("long-hvar: subset tables: {}", sf.table_directory.table_records().iter().map(|r| format!("{}:{}", r.tag(), r.length())).collect::<Vec<_>>().join(" "));
+                                match verify(&dfi, &req, flags, &o) {
+                                    Ok(_) => println!("long-hvar: verify ok"),
+                                    Err(vs) => for v in vs.iter().take(4) { println!("long-hvar: VIOL {} :: {}", v.class, v.what) },
+                                }
+                            }
+                        }
+                    }
+                    for (gids, flags) in [(vec![1u32, 2], 0u16), (vec![2], 0), ((0..fi.num_glyphs).collect(), F_RETAIN_GIDS)] {
+                        match run_subset(&f, &gids, &[], flags) {
+                            Ok(Ok(o)) => {
+                                let sf = FontRef::new(&o).unwrap();
+                                let sm = sf.glyph_metrics(Size::unscaled(), LocationRef::new(&loc));
+                                println!("long-hvar: gids {:?} flags {flags}: Ok, subset advances at +1: {:?}", &gids[..gids.len().min(4)], (0..3).map(|g| sm.advance_width(GlyphId::new(g))).collect::<Vec<_>>());
+                            }
+                            Ok(Err(e)) => println!("long-hvar: gids {:?} flags {flags}: Err({e})", &gids[..gids.len().min(4)]),
+                            Err(p) => println!("long-hvar: gids {:?} flags {flags}: panic {} @{}", &gids[..gids.len().min(4)], p.message, p.site()),
+                        }
+                    }
                 }
             }
         }
@@ -2208,6 +2807,7 @@ fn body(run: &Run, replay: Option<&Value>) {
             a.resubsets += b.resubsets;
             a.errs += b.errs;
             a.variants += b.variants;
+            a.absent_checks += b.absent_checks;
             for (k, v) in b.font_ns {
                 *a.font_ns.entry(k).or_default() += v;
             }
@@ -2235,4 +2835,5 @@ fn body(run: &Run, replay: Option<&Value>) {
     run.count("pairs_skipped_reference_draw_error", merged.skipped_ref_err);
     run.count("cases_with_failure", merged.errs);
     run.count("variation_sequences_compared", merged.variants);
+    run.count("absent_character_requests_compared_with_reduced_request", merged.absent_checks);
 }
